@@ -1095,6 +1095,8 @@ fn parse_vop(tok: &str) -> VOp {
             ["addm", k, a, b] => VOp::BinM(Ar::Add, p_reg(k)?, p_reg(a)?, p_reg(b)?),
             ["subm", k, a, b] => VOp::BinM(Ar::Sub, p_reg(k)?, p_reg(a)?, p_reg(b)?),
             ["mulm", k, a, b] => VOp::BinM(Ar::Mul, p_reg(k)?, p_reg(a)?, p_reg(b)?),
+            ["divm", k, a, b] => VOp::BinM(Ar::Div, p_reg(k)?, p_reg(a)?, p_reg(b)?),
+            ["remm", k, a, b] => VOp::BinM(Ar::Rem, p_reg(k)?, p_reg(a)?, p_reg(b)?),
             ["adda", k, a] => VOp::BinA(Ar::Add, p_reg(k)?, p_reg(a)?),
             ["suba", k, a] => VOp::BinA(Ar::Sub, p_reg(k)?, p_reg(a)?),
             ["mula", k, a] => VOp::BinA(Ar::Mul, p_reg(k)?, p_reg(a)?),
@@ -1285,6 +1287,8 @@ fn exec_vop(regs: &mut VRegs, op: &VOp) -> VStep {
                 let v = match ar {
                     Ar::Add => x + y,
                     Ar::Sub => x - y,
+                    Ar::Div => x / y,
+                    Ar::Rem => x % y,
                     _ => x * y,
                 };
                 regs[k] = Some(v);
@@ -1561,6 +1565,123 @@ pub fn val_history(toks: &[&str]) -> Res {
 
 // ================================================================== mem.arith
 
+/// `mem.arith iadd|isub|imul <form> <a> <b>` with signed hex operands: one public `IBig` call
+fn signed_case(args: &[&str]) -> Res {
+    let bad = || Err("bad-op mem.arith".to_string());
+    let (op, form) = (args[0], args[1]);
+    if !matches!(form, "rr" | "rv" | "vr" | "vv") {
+        return bad();
+    }
+    let ok_hex = |s: &str| hex_to_words(s.strip_prefix('-').unwrap_or(s)).is_some();
+    if !ok_hex(args[2]) || !ok_hex(args[3]) {
+        return bad();
+    }
+    hist_begin(true);
+    let built = guarded(|| (p_ibig(args[2]).unwrap(), p_ibig(args[3]).unwrap()));
+    clear_log();
+    let (a, b) = match built {
+        Ok(x) => x,
+        Err(_) => {
+            hist_end();
+            return bad();
+        }
+    };
+    let (mut a, mut b) = (Some(a), Some(b));
+    macro_rules! forms {
+        ($o:tt) => {
+            match form {
+                "rr" => {
+                    let (x, y) = (a.as_ref().unwrap(), b.as_ref().unwrap());
+                    guarded(|| x $o y)
+                }
+                "rv" => {
+                    let x = a.as_ref().unwrap();
+                    let y = b.take().unwrap();
+                    guarded(move || x $o y)
+                }
+                "vr" => {
+                    let x = a.take().unwrap();
+                    let y = b.as_ref().unwrap();
+                    guarded(move || x $o y)
+                }
+                _ => {
+                    let x = a.take().unwrap();
+                    let y = b.take().unwrap();
+                    guarded(move || x $o y)
+                }
+            }
+        };
+    }
+    let res: Result<IBig, (String, String)> = match op {
+        "iadd" => forms!(+),
+        "isub" => forms!(-),
+        _ => forms!(*),
+    };
+    let ev = drain_events();
+    let head = match &res {
+        Ok(r) => {
+            let (cap, len) = ibig_repr_info(r);
+            format!("r{}/{}/{}", cap, len, ws_str(r.as_sign_words().1))
+        }
+        Err((msg, loc)) => format!("!{}", classify_panic(msg, loc)),
+    };
+    let _ = guarded(move || {
+        drop(res);
+        drop(a);
+        drop(b);
+    });
+    let drops = drain_sorted_drops();
+    let (live, dfree, _) = counters();
+    hist_end();
+    Ok(format!("{}|{} end:{}:live={}:dfree={}", head, ev, drops, live, dfree))
+}
+
+/// `mem.arith frombytes le|be <hex value> d:<nbytes>`: `UBig::from_le_bytes` / `from_be_bytes` of the value
+/// written on exactly `nbytes` bytes (high zero bytes included)
+fn frombytes_case(args: &[&str]) -> Res {
+    let bad = || Err("bad-op mem.arith".to_string());
+    let le = match args[1] {
+        "le" => true,
+        "be" => false,
+        _ => return bad(),
+    };
+    let words = match hex_to_words(args[2]) {
+        Some(w) => w,
+        None => return bad(),
+    };
+    let n = match p_usize(args[3]) {
+        Ok(n) => n,
+        Err(_) => return bad(),
+    };
+    let mut bytes: Vec<u8> = words.iter().flat_map(|w| w.to_le_bytes()).collect();
+    while bytes.len() > n && bytes.last() == Some(&0) {
+        bytes.pop();
+    }
+    if bytes.len() > n {
+        return bad();
+    }
+    bytes.resize(n, 0);
+    if !le {
+        bytes.reverse();
+    }
+    hist_begin(true);
+    clear_log();
+    let res = guarded(|| if le { UBig::from_le_bytes(&bytes) } else { UBig::from_be_bytes(&bytes) });
+    let ev = drain_events();
+    let head = match &res {
+        Ok(r) => {
+            let (cap, len) = ubig_repr_info(r);
+            format!("r{}/{}/{}", cap, len, ws_str(r.as_words()))
+        }
+        Err((msg, loc)) => format!("!{}", classify_panic(msg, loc)),
+    };
+    let _ = guarded(move || drop(res));
+    let drops = drain_sorted_drops();
+    let (live, dfree, _) = counters();
+    hist_end();
+    Ok(format!("{}|{} end:{}:live={}:dfree={}", head, ev, drops, live, dfree))
+}
+
 /// `mem.arith <op> <form> <a> <b>`: exactly one public `UBig` call (`+ - *` in the four ownership
 /// forms, `<< >>` by value / by reference) with the allocator events it causes, then the drops of
 /// the result and of the operands that are still alive.
@@ -1570,6 +1691,45 @@ pub fn arith_case(args: &[&str]) -> Res {
         return bad();
     }
     let (op, form) = (args[0], args[1]);
+    if op == "frombytes" {
+        return frombytes_case(args);
+    }
+    if matches!(op, "iadd" | "isub" | "imul") {
+        return signed_case(args);
+    }
+    if op == "sqr" {
+        // `UBig::sqr(&self)`: the operand stays alive
+        if form != "r" || hex_to_words(args[2]).is_none() {
+            return bad();
+        }
+        hist_begin(true);
+        let built = guarded(|| p_ubig(args[2]).unwrap());
+        clear_log();
+        let a = match built {
+            Ok(x) => x,
+            Err(_) => {
+                hist_end();
+                return bad();
+            }
+        };
+        let res = guarded(|| a.sqr());
+        let ev = drain_events();
+        let head = match &res {
+            Ok(r) => {
+                let (cap, len) = ubig_repr_info(r);
+                format!("r{}/{}/{}", cap, len, ws_str(r.as_words()))
+            }
+            Err((msg, loc)) => format!("!{}", classify_panic(msg, loc)),
+        };
+        let _ = guarded(move || {
+            drop(res);
+            drop(a);
+        });
+        let drops = drain_sorted_drops();
+        let (live, dfree, _) = counters();
+        hist_end();
+        return Ok(format!("{}|{} end:{}:live={}:dfree={}", head, ev, drops, live, dfree));
+    }
     let shift = matches!(op, "shl" | "shr");
     if !shift && !matches!(op, "add" | "sub" | "mul" | "div" | "rem") {
         return bad();
